@@ -15,6 +15,8 @@ import (
 
 // vhTick delivers one tick to the store's collection goroutine and lets it finish.
 func vhTick() {
+	// the collection goroutine creates its ticker when it first runs: let it start
+	vh.Sched()
 	for _, t := range vclock.Tickers() {
 		t.Tick()
 	}
@@ -64,14 +66,33 @@ func VH_C05_DuringPush() {
 			vh.Cover("C05.collected-during-push")
 		}
 	}
+	// the same config and layer may already be stored, unreferenced, from a push abandoned
+	// longer ago than any grace period (no collection has run since)
+	if vh.Bool("staleCopies") {
+		vhPushBlob(s, "a", confB)
+		vhPushBlob(s, "a", layerB)
+		vclock.Advance(time.Duration(1 << 47))
+		vh.Tag("staleCopies", "true")
+	}
+	// upload protocol of the two blobs: monolithic POST, or session POST + PUT
+	push := vhPushBlob
+	if vh.Bool("sessionUpload") {
+		push = func(s *Server, repo string, content []byte) (digest.Digest, int) {
+			d := digest.Canonical.FromBytes(content)
+			id := vhSessionID(vhDo(s, "POST", "/v2/"+repo+"/blobs/uploads/", nil, nil, nil))
+			rec := vhDo(s, "PUT", "/v2/"+repo+"/blobs/uploads/"+id, vhQ("state", vhStateToken(0), "digest", d.String()), nil, content)
+			return d, rec.Status()
+		}
+		vh.Tag("upload", "session")
+	}
 	// upload instants are read BEFORE the request: the blob's real modification time is
 	// later, so "uploaded less than a grace period ago" is judged conservatively
 	t0 := vclock.LastNs()
-	d1, c1 := vhPushBlob(s, "a", confB)
+	d1, c1 := push(s, "a", confB)
 	ups = append(ups, upl{d1, t0})
 	gcPoint("afterConfig", 3)
 	t0 = vclock.LastNs()
-	d2, c2 := vhPushBlob(s, "a", layerB)
+	d2, c2 := push(s, "a", layerB)
 	ups = append(ups, upl{d2, t0})
 	gcPoint("afterLayer", 0)
 	vh.Assert(c1 == 201 && c2 == 201, "C05.setup")
